@@ -135,6 +135,8 @@ Inductive e2e_class :=
 | E2Oversized      (* length prefix above the limit *)
 | E2WrongType      (* a valid message of the wrong type *)
 | E2BadEcho        (* valid request, then an echo that is not ours *)
+| E2NonSecpIdentity (* the remote's transport identity is an Ed25519 / RSA / ECDSA-P256 key (no Ethereum address can
+                        be derived from its peer id); it sends a request correctly signed with some secp256k1 key *)
 | E2UnknownRole.   (* a complete valid handshake (right key, right signature over role ++ token) whose role
                       string is none of the three known ones: the peer is enrolled with type -1 and handed
                       to the topology (inbound: notifier.Connected; outbound: discovery's AddPeers) *)
@@ -165,7 +167,10 @@ Inductive entry_input :=
 (* p2p.PeerType(t).String() / p2p.FromString on any text; a real Topology fed (Connected, AddPeers,
    Disconnected, GetPeers) with peers of these types, known or not *)
 | EPeerType (t : Z)
-| ETopologyPeers (types : list Z).
+| ETopologyPeers (types : list Z)
+(* GetEthAddressFromPeerID on a peer id of kind: 0 secp256k1, 1 Ed25519, 2 RSA, 3 ECDSA-P256, 4 secp256k1-shaped
+   identity id whose key bytes are not a curve point, 5 hashed (non-identity) id, 6 the empty id, 7 other bytes *)
+| EPeerIDAddress (kind : N).
 
 (* ---- where the Go code panics ---------------------------------------------------------------------- *)
 
@@ -216,6 +221,7 @@ Definition panics_gen (f : fixes) (i : entry_input) : bool :=
   | EE2EStress reg => negb (f_metrics f) && negb reg     (* the abandoned handshakes fail *)
   | EPeerType _ => false
   | ETopologyPeers _ => false
+  | EPeerIDAddress _ => false
   end.
 
 Definition panics : entry_input -> bool := panics_gen fixes_now.
@@ -245,6 +251,7 @@ Definition expected_result (i : entry_input) : option N :=
   (* end to end the result class is the liveness probe: after the hostile exchange an honest
      peer still completes its handshake and is registered (0) *)
   | EE2EInbound _ _ | EE2EOutbound _ _ | EE2EStress _ => Some 0
+  | EPeerIDAddress k => if k =? 0 then Some 0 else if k =? 7 then None else Some 1
   | _ => None
   end.
 
@@ -270,6 +277,7 @@ Definition entry_name (i : entry_input) : string :=
   | EE2EStress _ => "e2e-stress"
   | EPeerType _ => "peer-type"
   | ETopologyPeers _ => "topology-peers"
+  | EPeerIDAddress _ => "peer-id-address"
   end%string.
 
 (* the clause key of an observed panic: the three repaired defects keep the key under which they
@@ -303,4 +311,5 @@ Definition hostile (i : entry_input) : bool :=
   | EE2EStress _ => true
   | EPeerType t => (t <? 0)%Z || (2 <? t)%Z
   | ETopologyPeers ts => existsb (fun t => (t <? 0)%Z || (2 <? t)%Z) ts
+  | EPeerIDAddress k => negb (k =? 0)
   end.
